@@ -54,7 +54,7 @@ func indexObject(p *lang.Process, params []string) error {
 
 func indexTable(p *lang.Process, params []string) error {
 	cRecords := make(chan []string, 10)
-	status := make(chan error)
+	status := make(chan error, 3) // only the first result is read
 
 	go func() {
 		err1 := p.Stdin.ReadArray(p.Context, func(b []byte) {
@@ -92,7 +92,8 @@ func indexTable(p *lang.Process, params []string) error {
 	marshaller := func(s []string) []byte {
 		b, err3 := lang.MarshalData(p, types.Json, s)
 		if err3 != nil {
-			close(cRecords)
+			// cRecords is closed by its writer. Closing it here too panics
+			// outside of any recover and takes the whole shell down
 			status <- err3
 		}
 		return b
